@@ -1010,6 +1010,27 @@ example : listProducts (render (opGe, n_1d9) []) [] [[⟨n_1d10, []⟩, ⟨n_1d9
 example : listProducts (render (opGe, n_1d9) []) [sLatest] [[⟨n_1d10, []⟩, ⟨n_1d9, [s_current]⟩, ⟨n_1d2, []⟩]] = .ok (.products [(0, n_1d10)]) := by decide
 example : listProducts [49, 46, 42] [] [[⟨n_1d10, []⟩, ⟨n_2, []⟩, ⟨n_1d2, []⟩]] = .ok (.products [(0, n_1d2), (0, n_1d10)]) := by decide   -- `1.*`
 
+/-- **The sort of the listing model is a stable sort** of any list of conventional names — a permutation, ordered by
+the comparator, names that compare equal in their original relative order — and its last element is the one the
+`latest` selection finds (`C10_latest_is_last_of_sort` says the same of every stable sort): the two models of
+`vers.sort(...)` agree. -/
+theorem C10_sort_model_is_stable_sort (names : List Str) (ps : List (Str × Lexed)) (hps : lexPairs names = .ok ps)
+    (hconv : ∀ v ∈ names, convName v = true) :
+    (sortVers ps).Perm ps ∧ (sortVers ps).Pairwise (fun a b => cmpSort a.2 b.2 ≤ 0) ∧
+    (∀ m ∈ ps, (sortVers ps).filter (fun y => cmpSort y.2 m.2 == 0) = ps.filter (fun y => cmpSort y.2 m.2 == 0)) ∧
+    (sortVers ps).getLast? = lastMax none ps := by
+  obtain ⟨ps', hps', hc⟩ := lexPairs_of_conv hconv
+  rw [hps] at hps'; cases hps'
+  refine ⟨sortVers_perm ps, sortVers_sorted ps hc, fun m hm => sortVers_stable m ps (hc m hm) hc, ?_⟩
+  cases hl : lastMax none ps with
+  | none =>
+    cases ps with
+    | nil => simp [sortVers]
+    | cons a as => simp [lastMax] at hl; exact absurd hl (by
+        intro h; have := lastMax_spec [a] as a (by simpa using hc) (by simp) (by intro y hy; simp at hy; subst hy; rw [cmpSort_self]; exact Int.le_refl 0)
+        obtain ⟨m, hm, _⟩ := this; rw [h] at hm; cases hm)
+  | some m => exact sortVers_getLast ps m hl hc
+
 /-! ## a version argument at the other entry points -/
 
 /-- **`findProduct(name, expr)`** (`_findPreferredProductByExpr`): whatever tags the session prefers and whichever
